@@ -558,6 +558,9 @@ func (r *runner) confirmAndMinimise(c *candidate, tier string) (string, *replayF
 	if tier == "thorough" {
 		sh.budget, sh.deadline = 6000, time.Now().Add(180*time.Second)
 	}
+	if c.v.Oracle == "liveness" {
+		sh.budget = 8 // every replay of a hang costs a full watchdog period
+	}
 	// the un-shrunk tape must reproduce first (same process family, fresh process)
 	sh.budget++
 	if !sh.test(tape) {
